@@ -439,6 +439,20 @@ func (d *diag) run(list []ast.Stmt, results *[]int, where *[]ast.Node) bool {
 			if !fall {
 				return false
 			}
+		case *ast.SwitchStmt:
+			// desugared into the equivalent if / else-if chain (no fallthrough, no break inside)
+			chain, okc := d.switchAsIf(x)
+			if !okc {
+				*results = append(*results, triU)
+				*where = append(*where, s)
+				return false
+			}
+			if x.Init != nil {
+				d.run([]ast.Stmt{x.Init}, results, where)
+			}
+			if chain != nil && !d.run([]ast.Stmt{chain}, results, where) {
+				return false
+			}
 		default:
 			*results = append(*results, triU)
 			*where = append(*where, s)
@@ -446,6 +460,51 @@ func (d *diag) run(list []ast.Stmt, results *[]int, where *[]ast.Node) bool {
 		}
 	}
 	return true
+}
+
+// switchAsIf rewrites a switch without fallthrough / break into nested if statements.
+func (d *diag) switchAsIf(x *ast.SwitchStmt) (ast.Stmt, bool) {
+	bad := false
+	ast.Inspect(x.Body, func(n ast.Node) bool {
+		if b, ok := n.(*ast.BranchStmt); ok && (b.Tok == token.FALLTHROUGH || b.Tok == token.BREAK) {
+			bad = true
+		}
+		return !bad
+	})
+	if bad {
+		return nil, false
+	}
+	var def *ast.CaseClause
+	var clauses []*ast.CaseClause
+	for _, c := range x.Body.List {
+		cc := c.(*ast.CaseClause)
+		if cc.List == nil {
+			def = cc
+		} else {
+			clauses = append(clauses, cc)
+		}
+	}
+	var tail ast.Stmt
+	if def != nil {
+		tail = &ast.BlockStmt{List: def.Body, Lbrace: def.Pos()}
+	}
+	for i := len(clauses) - 1; i >= 0; i-- {
+		cc := clauses[i]
+		var cond ast.Expr
+		for _, e := range cc.List {
+			var one ast.Expr = e
+			if x.Tag != nil {
+				one = &ast.BinaryExpr{X: x.Tag, Op: token.EQL, Y: e, OpPos: e.Pos()}
+			}
+			if cond == nil {
+				cond = one
+			} else {
+				cond = &ast.BinaryExpr{X: cond, Op: token.LOR, Y: one, OpPos: e.Pos()}
+			}
+		}
+		tail = &ast.IfStmt{If: cc.Pos(), Cond: cond, Body: &ast.BlockStmt{List: cc.Body, Lbrace: cc.Pos()}, Else: tail}
+	}
+	return tail, true
 }
 
 func rulesC19(c *Ctx) {
